@@ -499,9 +499,12 @@ def _attribute(res, ref, out, script, family, c17_findings, tolerate=True):
                         d["ctx"] = "macro-block"
         if v[0] == "tree-differs" and "b-subproc" in verdict.flags and not (verdict.flags & {"subproc", "macro"}):
             # the input reads the place as Python, only the output as a command
+            glued_hash = all(d["rule"] == "comment-pad" and d["shape"] == "insert" for u in us for _, d in u)
             for u in us:
                 for _, d in u:
-                    if d["ctx"] == "subproc":
+                    if glued_hash:
+                        d["ctx"] = "subproc"      # a `#` glued to a word: separated from it, the line is a command (shape of F03)
+                    elif d["ctx"] == "subproc":
                         d["ctx"] = "python"
         if v[0] == "tree-differs" and "subproc" in verdict.flags and "macro" not in verdict.flags:
             # the difference shows inside (or is) a subprocess call: the edited text is subprocess text, whatever
